@@ -119,7 +119,10 @@ Section WithTokens.
                      | ErrUnexpected x => ErrUnexpected x
                      | ErrInternal => ErrInternal
                      end
-                 | None => value_until f terms (t :: acc) r
+                 | None =>
+                     (* a closing bracket that nothing in this value opened ('>' may be an operator) *)
+                     if memN (ty t) end_balanced_tokens && negb (ty t =? GT) then ErrUnexpected (ty t)
+                     else value_until f terms (t :: acc) r
                  end
         end
     end.
